@@ -1,10 +1,11 @@
 from contracts.uijson import CONTRACTS as _U
 from contracts.validators import CONTRACTS as _V
 from contracts.enforcers import CONTRACTS as _E
-CONTRACTS = list(_U) + list(_V) + list(_E)
+from contracts.frames import ValidateDataFrame, ValidateFrame
+CONTRACTS = list(_U) + list(_V) + list(_E) + [ValidateDataFrame, ValidateFrame]
 
 MANIFEST = {
     "category": "proof",
-    "text": "requires_value and its helpers are proved equal to a decision table written from the ui.json documentation for arbitrary dictionaries (loops carry invariants); each scalar validator is proved to raise iff its constraint is violated; EnforcerPool.enforce and Parameter.value are proved stateless/atomic for any number of enforcers. Type/UUID validators and call-history statelessness are exhaustive small-scope native checks (labelled bounded).",
-    "note": "Switch members are typed as the format says (precondition); at most one groupOptional carrier per group (precondition); pydantic forms and InputValidation.validate_data are outside the deductive part; T-py dict enumeration axiom assumed.",
+    "text": "requires_value and its helpers are proved equal to a decision table written from the ui.json documentation for arbitrary dictionaries (loops carry invariants); each scalar validator is proved to raise iff its constraint is violated; EnforcerPool.enforce and Parameter.value are proved stateless/atomic for any number of enforcers; InputValidation.validate/validate_data are proved (abstract execution of the real code, every path) never to mutate the validator's rule tables or the data they are given. Type/UUID validators and call-history statelessness are exhaustive small-scope native checks (labelled bounded).",
+    "note": "Switch members are typed as the format says (precondition); at most one groupOptional carrier per group (precondition); pydantic forms are outside the deductive part; abstract mode unrolls loops over opaque collections 0..2 times (stated in evidence); T-py dict enumeration axiom assumed.",
 }
